@@ -6,7 +6,7 @@ VERIF = os.path.dirname(os.path.dirname(os.path.abspath(__file__)))
 props = [json.loads(l) for l in open(os.path.join(VERIF, "properties.jsonl"))]
 
 TRUST = ("Trusted, not proved: Verus/Z3/rustc; vstd's std specifications; the assumed std/str/f64 contracts in specs/std.rs and specs/tr.vspec "
-         "and every hoisted closure chain (all enumerated per run in evidence.coverage.trusted_base); the extractor's rewrite rules R1-R25 "
+         "and every hoisted closure chain (all enumerated per run in evidence.coverage.trusted_base); the extractor's rewrite rules R1-R31 "
          "(each application logged in evidence.coverage.units[].rewrite_rules_applied); A-SIZE (DigitString counters < 2^61); allocation never fails. ")
 MECH = ("The end-to-end sentence of the property is a statement about two runs or about whole phrases; what is proved is the set of single-call "
         "contracts that pin it down (each clause tagged with this property id in specs/*.vspec). ")
@@ -161,9 +161,11 @@ CLAIMED = {
         "text": "Facade proved against provenance predicates: each of the eight trait methods (and basic_annotate) of `Language` - the body of the `delegate!` macro_rules, expanded textually at its invocation by the extractor (rule R28) so that they are ordinary functions with every rewrite rule available - must "
                 "establish for each variant the opaque predicate that only the same-named method of that variant's concrete interpreter establishes, so a swapped, "
                 "missing or defaulted delegation fails; get_interpreter_for is proved to return exactly the matching variant for the seven ISO codes (found and "
-                "fixed: 'pt') and None for every other string.",
+                "fixed: 'pt') and None for every other string. A structural obligation adds that every LangInterpreter method one of the seven interpreters "
+                "implements itself is also defined by the facade (none falls back to the trait default); a gap there is UNDECIDED, and the bounded "
+                "'facade' search (concrete type against Language on about 200 000 one- and two-word phrases, labelled bounded) then decides with a witness or not at all.",
         "note": TRUST + "The seven interpreters are stubs carrying only the trait contract in this unit (their own proofs are the lang_* units).",
-        "design_ref": "DESIGN.md §12.3 C13, §13.12",
+        "design_ref": "DESIGN.md §12.3 C13, §13.12, §13.13",
     },
     "C14": {
         "text": "Partial: (a) no interpreter method writes to the process's standard streams: dbg!/print!/eprint! families are rewritten to a helper whose "
